@@ -1,9 +1,9 @@
 package parsers
 
 import (
+	"strconv"
 	"strings"
 
-	"github.com/pip-services3-gox/pip-services3-commons-gox/convert"
 	"github.com/pip-services3-gox/pip-services3-expressions-gox/calculator/errors"
 	ctokenizers "github.com/pip-services3-gox/pip-services3-expressions-gox/calculator/tokenizers"
 	"github.com/pip-services3-gox/pip-services3-expressions-gox/tokenizers"
@@ -272,14 +272,23 @@ func (c *ExpressionParser) completeLexicalAnalysis() error {
 			}
 		case tokenizers.Integer:
 			{
+				// A whole number that does not fit is not some other number
+				number, err := strconv.ParseInt(token.Value(), 10, 64)
+				if err != nil {
+					return errors.NewSyntaxError("", errors.ErrErrorAt, "Number "+token.Value()+" is out of range", token.Line(), token.Column())
+				}
 				tokenType = Constant
-				tokenValue = variants.VariantFromInteger(convert.IntegerConverter.ToInteger(token.Value()))
+				tokenValue = variants.VariantFromInteger(int(number))
 				break
 			}
 		case tokenizers.Float:
 			{
+				number, err := strconv.ParseFloat(token.Value(), 32)
+				if err != nil {
+					return errors.NewSyntaxError("", errors.ErrErrorAt, "Number "+token.Value()+" is out of range", token.Line(), token.Column())
+				}
 				tokenType = Constant
-				tokenValue = variants.VariantFromFloat(convert.FloatConverter.ToFloat(token.Value()))
+				tokenValue = variants.VariantFromFloat(float32(number))
 				break
 			}
 		case tokenizers.Quoted:
